@@ -27,12 +27,13 @@ RULE = ('(document, route, BOM?, option set); a case = one document pushed throu
 ASSUMPTIONS = ['CPython file I/O trusted']
 
 
-def routes(text, tmpdir, tag, bom):
-    """-> list of (route name, accepts options, thunk(kwargs) -> database)"""
+def routes(text, tmpdir, tag, bom, crlf=False):
+    """-> list of (route name, accepts options, thunk(kwargs) -> database).  With crlf=True the FILE is written with
+    CRLF line ends (text mode reading translates them back, so every file route must still see `text`)"""
     from pydbml import PyDBML
     p = os.path.join(tmpdir, f'{tag}.dbml')
     with open(p, 'w', encoding='utf-8-sig' if bom else 'utf8', newline='') as f:
-        f.write(text)
+        f.write(text.replace('\n', '\r\n') if crlf else text)
     s = ('﻿' + text) if bom else text
 
     def with_file(fn):
@@ -97,6 +98,14 @@ def run_shard(spec, tier, seed, budget_s):
             props = rng.random() < 0.5
             doc = gen.random_doc(rng, rng.choice(['tiny', 'small', 'small']), rng.choice(['plain', 'rich']),
                                  flavours=('bare', 'unicode', 'space', 'unicode'), props=props)
+            # non-NFC text: combining marks and compatibility singletons must reach the model untouched on every route
+            for t in doc.tables:
+                if rng.random() < 0.5:
+                    t.note = (t.note or 'n') + rng.choice([' e\u0301', ' \u2126', ' A\u030a', ' \u212b \u212a', ' o\u0308\u0304'])
+            for st in doc.stickies:
+                st.name = st.name + rng.choice(['', 'e\u0301', '\u2126'])
+            if doc.project is not None:
+                doc.project.name = doc.project.name + rng.choice(['', 'A\u030a', '\u212a'])
             text = surface.render(doc, f'{seed}-{i}-{k}')
             if rng.random() < 0.1:
                 text = ''    # empty document through every route
@@ -107,10 +116,14 @@ def run_shard(spec, tier, seed, budget_s):
                                 ('all', {'allow_properties': True, 'sql_renderer': RecSQL, 'dbml_renderer': RecDBML})):
                 ref, refdb = outcome(lambda **kw2: PyDBML.parse(text, **kw2), kw)
                 ref0, _ = outcome(lambda **kw2: PyDBML.parse(text), {})
-                for bom in (False, True):
-                    for name, takes, thunk in routes(text, tmpdir, f'd{k}', bom):
+                for bom, crlf in ((False, False), (True, False), (False, True), (True, True)):
+                    for name, takes, thunk in routes(text, tmpdir, f'd{k}', bom, crlf):
                         if not takes and kw:
                             continue
+                        if crlf and ('str' in name.split('(')[-1] and 'parse_file' not in name or name in ('PyDBML.parse', 'PyDBML().parse')):
+                            continue          # string routes do not read the file
+                        if crlf:
+                            sh.count('obs.crlf_file_routes')
                         want = ref if takes else ref0
                         got, db = outcome(thunk, kw if takes else {})
                         sh.count(f'obs.route.{name}.{"bom" if bom else "nobom"}')
@@ -163,6 +176,8 @@ def conclusive(agg, tier):
         for b in ('bom', 'nobom'):
             if not c.get(f'obs.route.{r}.{b}'):
                 out.append(f'route {r} ({b}) never exercised')
+    if not c.get('obs.crlf_file_routes'):
+        out.append('CRLF files never exercised')
     if not c.get('obs.refused_with_TypeError') or not c.get('obs.recording_renderer_calls'):
         out.append('type refusal or recording renderers never observed')
     return out
